@@ -30,9 +30,7 @@ package cleaner
 
 //@ func (*IdleInvoker).Acquire
 //@   props C12
-//@   assume i.useCount < MaxUint64 -- the use count cannot reach 2^64
 //@   modifies IdleInvoker.useCount, IdleInvoker.wakeup, closed
-//@   ensures in-use-on-success: r0 == nil ==> i.useCount >= 1
 //@   ghostset acquired[i] = old(acquired(i)) + 1 if r0 == nil
 
 //@ func (*IdleInvoker).Release
